@@ -156,6 +156,10 @@ def _compile_one(args):
     src, flags, outbc, opt, wd = args
     if opt == "O0":
         o = ["-O0", "-Xclang", "-disable-O0-optnone"]
+    elif opt == "O2u":
+        # as O2 below, but constant-trip loops may be unrolled: word arrays indexed by a loop counter become scalars, which the
+        # bit-level flow analysis (E11) needs to see that a mask applied to one word clears a bit of *that* word
+        o = ["-O2", "-fno-vectorize", "-fno-slp-vectorize", "-fno-inline"]
     else:
         o = ["-O2", "-fno-vectorize", "-fno-slp-vectorize", "-fno-unroll-loops", "-fno-inline"]
     cmd = [CLANG] + o + ["-g", "-fno-discard-value-names", "-w", "-emit-llvm", "-c",
